@@ -166,6 +166,12 @@ class Context(object):
                 if ob['status'] == 'refuted':
                     self.refuted_counts[ob['name']] = self.refuted_counts.get(ob['name'], 0) + 1
                 derived = ob['kind'] == 'post-derived'
+                if ob['status'] == 'refuted' and ob['kind'] == 'inv':
+                    # an auxiliary loop invariant that is no longer inductive: undecided (DESIGN 2.6);
+                    # the verdict is left to the other obligations and the bounded layer
+                    self.undecided.append('%s: %s (loop invariant not inductive on this tree; model %s)'
+                                          % (ident, ob['name'], json.dumps(ob['model'])[:200]))
+                    continue
                 if ob['status'] == 'undecided':
                     self.undecided.append('%s: %s (%s)' % (ident, ob['name'], ob['detail']))
                     continue
